@@ -80,6 +80,24 @@ mod verif_nx_pipeline {
         }
     }
 
+    // the same over a wider alphabet, length <= 2 (C04: no abort, no endless loop; C01)
+    #[test]
+    fn verif_nx_pipeline_soup_wide() {
+        let wide = ["^ ", "< ", "> ", "= ", ". ", "[ ", "] ", "'s' ", "1 ", "@ ", "property ", "type ", "record ", "interface ", "function ", "try ", "except ",
+                    "for ", "do ", "{$if X} ", "uses ", "const ", "begin ", "end ", "; ", "a ", ":= ", "if ", "then ", "( ", ") ", "{$ifdef X} ", "{$endif} ", "//c\n",
+                    "procedure ", "var ", ": ", "case ", "of ", "asm ", "class ", ", ", "'''\nx\n''' ", "{ c } ", "#13 ", "$FF ", "&begin ", "\u{e9} "];
+        let cfg = leak(config(true, 4, 3, true, 20, true));
+        let mut n = 0u64;
+        for a in wide { for b in wide { for c in ["", "; ", "end "] {
+            let s = format!("{a}{b}{c}");
+            let (out, _) = fmt(cfg, &s, vec![0, 1, s.len() as u32, s.len() as u32 + 5]);
+            assert!(nb(&out) == nb(&s), "OB pipeline/non_blank_preserved: the output has the same non-blank characters in the same order (ASCII case aside)\n input={:?}\n output={:?}", s, out);
+            n += 1;
+        }}}
+        println!("NX pipeline_soup_wide: {} cases", n);
+        assert!(n > 6_000, "enumeration ran");
+    }
+
     // C04 + C01 + C15 on arbitrary token soup
     #[test]
     fn verif_nx_pipeline_soup() {
@@ -175,4 +193,174 @@ mod verif_nx_pipeline {
         println!("NX pipeline_verbatim: {} cases", n);
         assert!(n > 2_000, "enumeration ran");
     }
+    // ---- C05: block structure, against a generator that knows every line's nesting depth by construction
+    #[derive(Clone)]
+    enum S {
+        Simple(&'static str),
+        Block(Vec<S>),
+        Try(Vec<S>, Vec<S>, bool),
+        Repeat(Vec<S>),
+        IfBegin(Vec<S>, Option<Vec<S>>),
+        ForBegin(Vec<S>),
+        WhileSimple,
+        Case(Vec<S>),
+    }
+
+    fn ind(d: usize) -> String {
+        "  ".repeat(d)
+    }
+
+    // expected rendering: one statement per line, one level deeper than the line that opens its block; closers at the opener's level
+    fn render(s: &S, d: usize, wrap_begin: bool, out: &mut Vec<String>) {
+        let list = |v: &Vec<S>, d: usize, out: &mut Vec<String>| {
+            for x in v {
+                render(x, d, wrap_begin, out);
+            }
+        };
+        match s {
+            S::Simple(t) => out.push(format!("{}{}", ind(d), t)),
+            S::Block(v) => {
+                out.push(format!("{}begin", ind(d)));
+                list(v, d + 1, out);
+                out.push(format!("{}end;", ind(d)));
+            }
+            S::Try(a, b, fin) => {
+                out.push(format!("{}try", ind(d)));
+                list(a, d + 1, out);
+                out.push(format!("{}{}", ind(d), if *fin { "finally" } else { "except" }));
+                list(b, d + 1, out);
+                out.push(format!("{}end;", ind(d)));
+            }
+            S::Repeat(v) => {
+                out.push(format!("{}repeat", ind(d)));
+                list(v, d + 1, out);
+                out.push(format!("{}until Z;", ind(d)));
+            }
+            S::IfBegin(a, b) => {
+                if wrap_begin {
+                    out.push(format!("{}if C then", ind(d)));
+                    out.push(format!("{}begin", ind(d)));
+                } else {
+                    out.push(format!("{}if C then begin", ind(d)));
+                }
+                list(a, d + 1, out);
+                match b {
+                    None => out.push(format!("{}end;", ind(d))),
+                    Some(b) => {
+                        out.push(format!("{}end", ind(d)));
+                        if wrap_begin {
+                            out.push(format!("{}else", ind(d)));
+                            out.push(format!("{}begin", ind(d)));
+                        } else {
+                            out.push(format!("{}else begin", ind(d)));
+                        }
+                        list(b, d + 1, out);
+                        out.push(format!("{}end;", ind(d)));
+                    }
+                }
+            }
+            S::ForBegin(v) => {
+                if wrap_begin {
+                    out.push(format!("{}for I := 0 to 9 do", ind(d)));
+                    out.push(format!("{}begin", ind(d)));
+                } else {
+                    out.push(format!("{}for I := 0 to 9 do begin", ind(d)));
+                }
+                list(v, d + 1, out);
+                out.push(format!("{}end;", ind(d)));
+            }
+            S::WhileSimple => {
+                out.push(format!("{}while C do", ind(d)));
+                out.push(format!("{}W;", ind(d + 1)));
+            }
+            S::Case(v) => {
+                out.push(format!("{}case X of", ind(d)));
+                out.push(format!("{}1: G;", ind(d + 1)));
+                out.push(format!("{}else", ind(d)));
+                list(v, d + 1, out);
+                out.push(format!("{}end;", ind(d)));
+            }
+        }
+    }
+
+    fn lists(depth: usize) -> Vec<Vec<S>> {
+        // statement lists of length 0..=2 over all forms whose sub-lists come from the next depth
+        let sub: Vec<Vec<S>> = if depth == 0 { vec![vec![], vec![S::Simple("A;")]] } else { lists(depth - 1) };
+        let mut forms: Vec<S> = vec![S::Simple("A;"), S::Simple("B := C + 1;"), S::WhileSimple];
+        for (i, a) in sub.iter().enumerate() {
+            forms.push(S::Block(a.clone()));
+            forms.push(S::Repeat(a.clone()));
+            forms.push(S::ForBegin(a.clone()));
+            forms.push(S::Case(if a.is_empty() { vec![S::Simple("A;")] } else { a.clone() }));
+            forms.push(S::IfBegin(a.clone(), None));
+            // pair each list with one partner, not with all of them (keeps the count in the thousands)
+            let b = &sub[(i + 1) % sub.len()];
+            forms.push(S::Try(a.clone(), b.clone(), i % 2 == 0));
+            forms.push(S::IfBegin(a.clone(), Some(b.clone())));
+        }
+        let mut out: Vec<Vec<S>> = vec![vec![]];
+        for f in &forms {
+            out.push(vec![f.clone()]);
+        }
+        if depth == 0 {
+            for f in &forms {
+                for g in &forms {
+                    out.push(vec![f.clone(), g.clone()]);
+                }
+            }
+        } else {
+            for (i, f) in forms.iter().enumerate() {
+                out.push(vec![f.clone(), forms[(i * 7 + 3) % forms.len()].clone()]);
+                out.push(vec![forms[(i * 5 + 1) % forms.len()].clone(), f.clone()]);
+            }
+        }
+        out
+    }
+
+    #[test]
+    fn verif_nx_pipeline_structure() {
+        let auto = leak(config(false, 2, 2, false, 120, false));
+        let wrap = leak(config(false, 2, 2, false, 120, true));
+        let mut n = 0u64;
+        let headers: [(&str, &str); 5] = [
+            ("procedure P;", ""), ("function F: Integer;", ""), ("constructor T.Create;", ""), ("destructor T.Destroy;", ""), ("class procedure T.Q;", ""),
+        ];
+        let sections: [&[&str]; 5] = [&[], &["var", "  L: Integer;"], &["const", "  K = 1;"], &["type", "  R = Integer;"], &["var", "  L: Integer;", "  M: Byte;"]];
+        for (depth, stride) in [(0usize, 1usize), (1, 1)] {
+            for (li, body) in lists(depth).iter().enumerate() {
+                if li % stride != 0 {
+                    continue;
+                }
+                // every routine kind, every kind of preceding unit-level section and local section (rotating, to keep the count bounded)
+                for (hi, (header, _)) in headers.iter().enumerate() {
+                    let outer = sections[(li + hi) % sections.len()];
+                    let local = sections[(li + 2 * hi + 1) % sections.len()];
+                    for (cfg, wrap_begin) in [(auto, false), (wrap, true)] {
+                        let mut lines: Vec<String> = vec!["unit U;".into(), "interface".into(), "implementation".into()];
+                        lines.extend(outer.iter().map(|x| x.to_string()));
+                        lines.push(header.to_string());
+                        lines.extend(local.iter().map(|x| x.to_string()));
+                        lines.push("begin".into());
+                        for st in body {
+                            render(st, 1, wrap_begin, &mut lines);
+                        }
+                        lines.push("end;".into());
+                        lines.push("end.".into());
+                        let expected = format!("{}\n", lines.join("\n"));
+                        let flat: String = lines.iter().map(|l| l.trim()).collect::<Vec<_>>().join(" ");
+                        let (out, _) = fmt(cfg, &flat, Vec::new());
+                        assert!(out == expected, "OB pipeline/block_structure: every statement / declaration starts its own line one level deeper than its block opener; closers at the opener's level; begin_style decides where `begin` goes\n input={:?}\n output=\n{}\n expected=\n{}", flat, out, expected);
+                        // the same tokens laid out one per line give the same result (C06)
+                        let tall: String = flat.split(' ').collect::<Vec<_>>().join("\n");
+                        let (out2, _) = fmt(cfg, &tall, Vec::new());
+                        assert!(out2 == expected, "OB pipeline/layout_independent: the result does not depend on the input's line wrapping\n input={:?}\n output=\n{}\n expected=\n{}", tall, out2, expected);
+                        n += 1;
+                    }
+                }
+            }
+        }
+        println!("NX pipeline_structure: {} cases", n);
+        assert!(n > 3_000, "enumeration ran");
+    }
+
 }
